@@ -355,6 +355,22 @@ pub struct ReplayOut {
 
 pub type Replayer = fn(&Value) -> Result<ReplayOut, String>;
 
+/// True if at least one of the first 20 violations replays identically twice
+/// (or there are none at all).
+pub fn some_violation_replays(run: &mut Run, replayer: Replayer) -> bool {
+    if run.acc.viols.is_empty() {
+        return true;
+    }
+    run.acc.viols.sort_by(|a, b| (a.weight, &a.kind, &a.detail).cmp(&(b.weight, &b.kind, &b.detail)));
+    run.acc.viols.iter().take(20).any(|v| {
+        let replayer: Replayer = if v.case["check"].as_str() == Some("iso") { crate::iso::replay } else { replayer };
+        match (replayer(&v.case), replayer(&v.case)) {
+            (Ok(a), Ok(b)) => a.observed == b.observed && a.violations == b.violations && !a.violations.is_empty(),
+            _ => false,
+        }
+    })
+}
+
 /// Returns the process exit code.
 pub fn finish(mut run: Run, replayer: Replayer) -> i32 {
     let known_db = match load_known() {
@@ -410,11 +426,13 @@ pub fn finish(mut run: Run, replayer: Replayer) -> i32 {
     let replay_dir = format!("{}/replays", out_root());
     let _ = std::fs::create_dir_all(&replay_dir);
     let mut written = vec![];
+    let mut unreproduced: Vec<String> = vec![];
     for (k, v) in run.acc.viols.iter().take(20).enumerate() {
         let path = format!("{}/{}-{}.json", replay_dir, run.prop, k);
         let mut ok_replay = true;
         let mut replay_note = String::new();
         if v.kind != "unlisted-finding" {
+            let replayer: Replayer = if v.case["check"].as_str() == Some("iso") { crate::iso::replay } else { replayer };
             match (replayer(&v.case), replayer(&v.case)) {
                 (Ok(a), Ok(b)) => {
                     if a.observed != b.observed || a.violations != b.violations {
@@ -443,14 +461,23 @@ pub fn finish(mut run: Run, replayer: Replayer) -> i32 {
             machinery_fail = true;
         }
         if !ok_replay {
-            eprintln!("MACHINERY: {} ({}: {})", replay_note, v.kind, v.detail);
-            machinery_fail = true;
+            unreproduced.push(format!("{} ({}: {})", replay_note, v.kind, v.detail));
         } else {
             println!("VIOLATION property={} replay={}", run.prop, path);
             println!("  {}: {}", v.kind, v.detail);
             exit = 1;
         }
         written.push(path);
+    }
+    // A differing case that replays identically, twice, is a verdict.  Differing cases that do not
+    // replay are reported beside it as notes; if *none* replays the run is a machinery failure.
+    for u in &unreproduced {
+        if exit == 1 {
+            println!("  note: a further differing case did not replay identically: {}", u);
+        } else {
+            eprintln!("MACHINERY: {}", u);
+            machinery_fail = true;
+        }
     }
     if run.acc.viol_count > 0 && exit == 0 && !machinery_fail {
         exit = 1;
